@@ -6,6 +6,7 @@ import RpmVerif.Driver.C18
 import RpmVerif.Driver.C15
 import RpmVerif.Driver.C19
 import RpmVerif.Driver.C05
+import RpmVerif.Driver.C04
 /-! Driver: one request per line in (`<op> <args…> => <impl observation>`), one answer per line
 out (`<model observation> | <spec verdict> | <branch label>`).
 Each property contributes `Driver/Cxx.lean` with `ops : List String` and
@@ -20,7 +21,8 @@ def handlers : List (List String × (String → List String → String → Strin
   (C18.ops, C18.handle),
   (C15.ops, C15.handle),
   (C19.ops, C19.handle),
-  (C05.ops, C05.handle)
+  (C05.ops, C05.handle),
+  (C04.ops, C04.handle)
 ]
 
 def dispatch (line : String) : String :=
